@@ -363,6 +363,47 @@ theorem C04_fresh_nftFresh (f : Fam) (p : Nat) (s : FwState) (h : fresh p s) : N
   rw [hn] at this
   simp [ownsNft] at this
 
+/-! ## truncation at every byte
+
+The control channel carries bytes.  `readerLines` (the reader of `Code/FwDialogue.lean` with the
+end-of-input behaviour of the source under test: an unfinished last line is given up, or — before
+fix ff70e94 — handed out as if it were a line) turns them into raw lines, `classify` (any function)
+into what `main` tests.  The identity theorems above hold for every list of lines, so they hold for
+the dialogue obtained from **every byte prefix** of every text, whichever of the two reader
+behaviours the source has. -/
+
+/-- nat: the channel may close after any byte. -/
+theorem C04_nat_truncation_every_byte (c : Config) (hm : c.method = .nat) (classify : Bytes → Line)
+    (text text' : Bytes) (_hpre : text' <+: text) (s0 : FwState)
+    (hfresh : ∀ hd rest, parseDialogue (dialogueOfText classify text') = .go hd rest →
+      hd.opts.udp = false ∧ NatFreshFor hd s0) :
+    (sessionText c classify text' { st := s0 }).2.st = s0 :=
+  C04_nat_identity_and_truncation c hm _ s0 hfresh
+
+/-- tproxy: the channel may close after any byte. -/
+theorem C04_tproxy_truncation_every_byte (c : Config) (hm : c.method = .tproxy) (classify : Bytes → Line)
+    (text text' : Bytes) (_hpre : text' <+: text) (s0 : FwState)
+    (hfresh : ∀ hd rest, parseDialogue (dialogueOfText classify text') = .go hd rest →
+      TpFreshFor hd s0 ∧ TpBodiesOk c hd) :
+    (sessionText c classify text' { st := s0 }).2.st = s0 :=
+  C04_tproxy_identity_and_truncation c hm _ s0 hfresh
+
+/-- nft: the channel may close after any byte. -/
+theorem C04_nft_truncation_every_byte (c : Config) (hm : c.method = .nft) (classify : Bytes → Line)
+    (text text' : Bytes) (_hpre : text' <+: text) (s0 : FwState)
+    (hfresh : ∀ hd rest, parseDialogue (dialogueOfText classify text') = .go hd rest →
+      hd.opts.udp = false ∧ NftFreshFor hd s0) :
+    (sessionText c classify text' { st := s0 }).2.st = s0 :=
+  C04_nft_identity_and_truncation c hm _ s0 hfresh
+
+/-- A text that ends inside its first line (`R`, `ROU`, `ROUTE` …): with the reader that gives an
+unfinished line up there is no line at all and `main` returns without touching anything. -/
+theorem C04_unfinished_first_line_is_eof (c : Config) (classify : Bytes → Line) (text : Bytes)
+    (h : readerLines text = []) (e : Env) : sessionText c classify text e = (.returned, e) := by
+  unfold sessionText dialogueOfText session
+  rw [h]
+  rfl
+
 /-! ### the hypotheses are satisfiable by a non-trivial configuration and dialogue -/
 
 /-- Built-in chains, a foreign chain with a rule, a foreign jump, another instance on port 23456. -/
@@ -423,5 +464,11 @@ example : NftFresh .v4 1025 exState ∧ TpFresh .v6 1025 exState :=
    C04_fresh_tpFresh _ _ _ (by
       refine ⟨fun f t => ?_, by decide, by decide⟩
       cases f <;> cases t <;> decide)⟩
+
+
+/-- "ROU" then end of input: the reader under test (fix ff70e94) hands out no line; before the fix
+(`drops = false`) the same bytes were taken for the line `ROU`. -/
+example : FwDialogue.rawLines 128 true [82, 79, 85] = [] ∧ FwDialogue.rawLines 128 false [82, 79, 85] = [[82, 79, 85]] := by
+  decide
 
 end Sshuttle.Fw
